@@ -41,6 +41,9 @@ class Exec:
         self.registered = registered
         self.notes: List[str] = []
         self.type_hints: Dict[int, Any] = {}
+        self.summaries: Dict[str, Any] = {}  # qualname -> hook(ex, fi, args, kwargs, st, node) -> Term | None
+        self._prop_getters: Dict[int, FuncInfo] = {}
+        self.sym_bytes = False  # bytes(<known items>) yields an 'sbytes' value instead of an opaque call
         self.replaced_bases: set = set()
         if registered:
             self._bind_registry()
@@ -189,6 +192,15 @@ class Exec:
         except PathDead:
             ret, st2, dead = None, None, True
         return Result(self, fi, ret, st2, start, len(self.trace), dead, bind)
+
+    def run_driver(self, module: ModuleInfo, src: str, args: Optional[Dict[str, Term]] = None, setup=None) -> "Result":
+        """interpret a synthetic entry point (analysis scaffold written by a rule, never repo code) whose free names
+        resolve in `module`; used to compose several repo calls on one abstract heap"""
+        import textwrap
+
+        node = ast.parse(textwrap.dedent(src)).body[0]
+        fi = FuncInfo(module, node, module.name + ".<driver:%s>" % node.name, None)
+        return self.run(fi, args=args, setup=setup)
 
     def param_value(self, st: State, fi: FuncInfo, argnode: ast.arg) -> Term:
         ann = argnode.annotation
